@@ -80,4 +80,9 @@ TEXTS = {
                 level_text=("Kernel-checked: sorting any permutation of the rule names yields the same list (C19_sorted_order_invariant), hence the repaired analysis computes the same flags, first graph, left-recursive set, leader and verdict for every map iteration order (C19_analysis_order_free); "
                             "and the necessity of the repair: for the D16 witness two visiting orders give different leaders (C19_order_matters_without_sorting). Execution: every generated grammar is analysed 12 (40) times in one process under Go's randomised map order, all outcomes identical and equal to the model's; Makefile generation rules are re-run in fresh processes and compared byte for byte."),
                 level_note=("Trusted: Lean kernel; Model/Mid.lean tied by the mid stream; emission (builder.go writes rules in grammar order, no map iteration) and the optimizer's maps are covered by execution only.")),
+    "C15": dict(technique="Lean 4 theorem (table lookup = general procedure) + table recomputation on every generated class + variant-pair execution",
+                design_ref="DESIGN.md §5 C15",
+                level_text=("Kernel-checked theorems (Properties/C15.lean): for every class and every rune < 128 the table entry computed by BasicLatinLookup equals the decision of the general matching procedure (C15_table_eq_general), and parseCharClassMatcher returns the same outcome with and without the table for every parser state — ASCII, non-ASCII, invalid byte, end of input (C15_equiv). "
+                            "Tie: the tables in the generated cases come from the real builder.BasicLatinLookup and the model driver recomputes each of them (all 128 entries) from the class descriptor; every case of a table variant is also run on the general-path variant of the real generated parser and the results compared."),
+                level_note=RT_NOTE + " unicode.Is is modelled as membership in the range table passed in the case line; unicode.ToLower comes from the stream header."),
 }
